@@ -411,6 +411,9 @@ func c18Case(c *core.C) {
 	// NOTE: writeDoc constructs a writer with no options (part of the history: it must not disturb anything)
 	var ws []*wModel
 	var rs []*rModel
+	var bw []*writer.Writer // writers and readers that keep the built-in storage backend
+	var br []*reader.Reader
+	var bwPath, brPath []string
 	trace := []string{}
 	maxSteps := 12
 	if c.Thorough() {
@@ -428,6 +431,51 @@ func c18Case(c *core.C) {
 				return false
 			}
 		}
+		// instances that keep the built-in storage backend: each has a backend of its own, configured only through
+		// itself, and a new instance starts with the backend's documented default (no path)
+		seenBackends := map[*storage.FileSystem]string{}
+		for i, w := range bw {
+			fs, ok := w.Storage.(*storage.FileSystem)
+			c.Evals(1)
+			if !ok || fs == nil {
+				c.Violatef("writer-backend-not-built-in", trace, "writer built without a storage option has backend %T (history %v)", w.Storage, trace)
+				return false
+			}
+			if other, dup := seenBackends[fs]; dup {
+				c.Violatef("writer-backend-shared", trace, "two instances built without a storage option share one backend value (%s and writer %d) (history %v)", other, i, trace)
+				return false
+			}
+			seenBackends[fs] = fmt.Sprintf("writer %d", i)
+			if fs.Options.Path != bwPath[i] {
+				c.Violatef("writer-backend-leak", trace, "the built-in backend of writer %d is configured with path %q, its own configuration says %q (history %v)", i, fs.Options.Path, bwPath[i], trace)
+				return false
+			}
+		}
+		for i, rd := range br {
+			fs, ok := rd.Storage.(*storage.FileSystem)
+			c.Evals(1)
+			if !ok || fs == nil {
+				c.Violatef("reader-backend-not-built-in", trace, "reader built without a storage option has backend %T (history %v)", rd.Storage, trace)
+				return false
+			}
+			if other, dup := seenBackends[fs]; dup {
+				c.Violatef("reader-backend-shared", trace, "two instances built without a storage option share one backend value (%s and reader %d) (history %v)", other, i, trace)
+				return false
+			}
+			seenBackends[fs] = fmt.Sprintf("reader %d", i)
+			if fs.Options.Path != brPath[i] {
+				c.Violatef("reader-backend-leak", trace, "the built-in backend of reader %d is configured with path %q, its own configuration says %q (history %v)", i, fs.Options.Path, brPath[i], trace)
+				return false
+			}
+		}
+		if fs, ok := writer.New().Storage.(*storage.FileSystem); !ok || fs.Options.Path != "" {
+			c.Violatef("writer-backend-leak", trace, "a new writer's built-in backend does not start with the default configuration (history %v)", trace)
+			return false
+		}
+		if fs, ok := reader.New().Storage.(*storage.FileSystem); !ok || fs.Options.Path != "" {
+			c.Violatef("reader-backend-leak", trace, "a new reader's built-in backend does not start with the default configuration (history %v)", trace)
+			return false
+		}
 		// a constructor without options yields the documented defaults, whatever happened before
 		dm := &wModel{name: "fresh-default-writer", indent: 4, fmtOpts: map[string]any{}, backend: &recBackend{}, optsDesc: []string{"(no options)"}}
 		dm.w = writer.New(writer.WithStoreRetriever(dm.backend))
@@ -439,6 +487,38 @@ func c18Case(c *core.C) {
 		return c18CheckReader(c, dr, trace, spdxSample)
 	}
 	for s := 0; s < steps; s++ {
+		if r.Intn(5) == 0 {
+			// an instance that keeps the built-in backend, sometimes configured through its own Storage field
+			if r.Intn(2) == 0 {
+				w := writer.New(writer.WithFormat(gen.Pick(r, c18Formats)))
+				bw, bwPath = append(bw, w), append(bwPath, "")
+				trace = append(trace, fmt.Sprintf("bw%d=writer.New(built-in backend)", len(bw)-1))
+			} else {
+				rd := reader.New()
+				br, brPath = append(br, rd), append(brPath, "")
+				trace = append(trace, fmt.Sprintf("br%d=reader.New(built-in backend)", len(br)-1))
+			}
+			if len(bw) > 0 && r.Intn(2) == 0 {
+				i := r.Intn(len(bw))
+				if fs, ok := bw[i].Storage.(*storage.FileSystem); ok {
+					bwPath[i] = fmt.Sprintf("/nonexistent/verif-bw%d-%d", i, s)
+					fs.Options.Path = bwPath[i]
+					trace = append(trace, fmt.Sprintf("bw%d.Storage.Options.Path=own", i))
+				}
+			}
+			if len(br) > 0 && r.Intn(2) == 0 {
+				i := r.Intn(len(br))
+				if fs, ok := br[i].Storage.(*storage.FileSystem); ok {
+					brPath[i] = fmt.Sprintf("/nonexistent/verif-br%d-%d", i, s)
+					fs.Options.Path = brPath[i]
+					trace = append(trace, fmt.Sprintf("br%d.Storage.Options.Path=own", i))
+				}
+			}
+			c.Cover("instances-keeping-the-built-in-storage-backend")
+			if !checkAll() {
+				return
+			}
+		}
 		kind := r.Intn(8)
 		if s == 0 {
 			kind = c.K % 2 // forced subsets start with a constructor
